@@ -4,7 +4,7 @@
 From Coq Require Import String Ascii.
 From Coq Require Import List ZArith QArith Qabs Bool Lia Lqa.
 From NV.Lib Require Import Harness.
-From NV.C07 Require Import Model Proofs Proofs2.
+From NV.C07 Require Import Model Proofs Proofs2 Proofs3.
 Import ListNotations.
 Open Scope Q_scope.
 
@@ -216,3 +216,59 @@ Example superposition_example :
             (vadd (main_regressor g ft5 (fir_kernel 1 4) [(2, 1, 1)]) (main_regressor g ft5 (fir_kernel 1 4) [(2, 0, 3)])) = true
   /\ Qeq_bool (nth 2 (main_regressor g ft5 (fir_kernel 1 4) [(2, 1, 1); (2, 0, 3)]) 0) 0 = false.
 Proof. vm_compute. auto. Qed.
+
+(* ---------------------------------------------------------------- (7) the code's own grid *)
+(* For EVERY commensurate input - scans 0, TR, .., (n-1)TR (up to ==), n >= 2, oversampling os >= 1 and
+   min_onset = -(q bins of TR/os) - the grid computed by the code (n_hr formula, int(), np.linspace) is the
+   uniform grid min_onset + i*TR/os with n*os + q + 1 points: nothing is lost by the int() truncation.
+   (The defaults min_onset=-24, os=16 are covered whenever 24*16/TR is an integer, e.g. TR = 1, 2, 0.5, 3.) *)
+Theorem hr_grid_is_uniform_when_commensurate : forall ft TR n os q, 0 < TR -> (2 <= n)%nat -> (1 <= os)%nat ->
+  leq ft (scans TR n) ->
+  leq (hr_grid ft os (- (qnat q * (TR / qnat os))))
+      (ugrid (- (qnat q * (TR / qnat os))) (TR / qnat os) (n * os + q + 1)).
+Proof. exact hr_grid_commensurate. Qed.
+Print Assumptions hr_grid_is_uniform_when_commensurate.
+
+(* regressors depend on the grid only up to == of its entries *)
+Theorem main_regressor_respects_grid_equality : forall g g' fts h evs, leq g g' ->
+  leq (main_regressor g fts h evs) (main_regressor g' fts h evs).
+Proof. exact main_regressor_grid_leq. Qed.
+Print Assumptions main_regressor_respects_grid_equality.
+
+(* compute_regressor's main column on the code's grid: delaying all onsets by k scans moves it by k rows ... *)
+Theorem main_regressor_shift_equivariant_on_code_grid : forall ft TR n os q, 0 < TR -> (2 <= n)%nat -> (1 <= os)%nat ->
+  leq ft (scans TR n) ->
+  forall h evs k r,
+  (forall e, In e evs -> inside (- (qnat q * (TR / qnat os))) (TR / qnat os) (n * os + q + 1) (k * os) e) ->
+  (1 <= q + r * os)%nat -> (r + k < n)%nat ->
+  nth (r + k) (main_regressor (hr_grid ft os (- (qnat q * (TR / qnat os)))) ft h (map (shift_ev (qnat k * TR)) evs)) 0
+  == nth r (main_regressor (hr_grid ft os (- (qnat q * (TR / qnat os)))) ft h evs) 0.
+Proof. intros ft TR n os q HT Hn Hos Hft h evs k r. apply code_grid_shift; assumption. Qed.
+Print Assumptions main_regressor_shift_equivariant_on_code_grid.
+
+(* ... and it is zero at every scan before the first onset *)
+Theorem main_regressor_causal_on_code_grid : forall ft TR n os q, 0 < TR -> (2 <= n)%nat -> (1 <= os)%nat ->
+  leq ft (scans TR n) ->
+  forall h evs r, (r < n)%nat -> (1 <= q + r * os)%nat ->
+  (forall e, In e evs -> 0 <= ev_dur e /\ qnat r * TR < ev_onset e) ->
+  nth r (main_regressor (hr_grid ft os (- (qnat q * (TR / qnat os)))) ft h evs) 0 == 0.
+Proof. intros ft TR n os q HT Hn Hos Hft h evs r. apply code_grid_causal; assumption. Qed.
+Print Assumptions main_regressor_causal_on_code_grid.
+
+(* ---------------------------------------------------------------- (8) cosine drift (over R) *)
+(* _cosine_drift, design_matrix.py l.78-91: column k-1 is t |-> sqrt(2/n) cos((pi/n)(t+.5)k), k = 1..order-1,
+   t = 0..n-1, last column the constant 1.  PARTIAL: exact real arithmetic (the code computes in floating point;
+   the oracle drift/cosine-column-order ties the implementation to this closed form to 1e-12), and order <= n,
+   i.e. period_cut >= 2 TR (beyond that the code's columns alias and are not orthogonal). *)
+From Coq Require Import Reals.
+From NV.C07 Require ProofsR.
+Close Scope R_scope.
+Theorem cosine_drift_orthonormal_partial : forall n k l, (1 <= k < n)%nat -> (1 <= l < n)%nat ->
+  (ProofsR.rsum (fun t => ProofsR.dct_col n k t * 1) n = 0)%R /\
+  (k <> l -> ProofsR.rsum (fun t => ProofsR.dct_col n k t * ProofsR.dct_col n l t) n = 0)%R /\
+  (ProofsR.rsum (fun t => ProofsR.dct_col n k t * ProofsR.dct_col n k t) n = 1)%R.
+Proof.
+  intros n k l [Hk1 Hk2] [Hl1 Hl2]. split; [apply ProofsR.dct_orthogonal_to_constant; lia|].
+  split; [intros Hne; apply ProofsR.dct_orthogonal; lia|apply ProofsR.dct_unit_norm; lia].
+Qed.
+Print Assumptions cosine_drift_orthonormal_partial.
